@@ -38,6 +38,80 @@ CLASSES = {
 DT_ORDER = ['year', 'month', 'day', 'hour', 'minute', 'second', 'microsecond']
 
 
+from sa.report import SkipSection as _SkipSection
+
+
+def _contains_run(ck, R1, ci, kind, flag, orderings):
+    from sa.minieval import MiniEval, _Fault, _Raised
+    from sa.loader import ClassInfo
+    prog = ck.prog
+    cont = prog.resolve_method(ci, '__contains__')
+    ck.need(R1, cont is not None, f"{ci.qual}: no __contains__")
+    params = [a.arg for a in cont.node.args.args]
+    ck.need(R1, len(params) == 2, f"{cont.fid}: expected (self, item)")
+
+    def class_body_resolver(dc):
+        def resolve(text):
+            if text.isidentifier() and text in dc.methods:
+                return dc.methods[text].node
+            if text.isidentifier():
+                b = prog.lookup(dc.module, text)
+                if b is not None and b[0] == 'func':
+                    return b[1].node
+            return None
+        return resolve
+
+    def resolve(text):
+        for pre in ('self.', 'type(self).', 'self.__class__.', 'cls.'):
+            if text.startswith(pre) and text[len(pre):].isidentifier():
+                f_ = prog.resolve_method(ci, text[len(pre):])
+                if f_ is not None and not prog.is_dummy(f_):
+                    return f_.node
+        if text.isidentifier():
+            b = prog.lookup(ci.module, text)
+            if b is not None and b[0] == 'func':
+                return b[1].node
+        return None
+    # class-level values (flags, tables of functions) evaluated in their defining class body
+    base_env = {}
+    for c in reversed([c for c in ci.mro if isinstance(c, ClassInfo)]):
+        for name, expr in c.values.items():
+            if name in c.methods:
+                continue
+            try:
+                val = MiniEval(R1, {}, class_body_resolver(c)).ev(expr)
+            except (AnalysisError, _Fault, _Raised):
+                continue
+            for pre in ('self.', 'type(self).', 'self.__class__.', 'cls.'):
+                base_env[pre + name] = val
+
+    def member(ranges, item):
+        env = dict(base_env)
+        env.update({'self': 'SELF', params[1]: item, 'self._interval': list(ranges)})
+        out = MiniEval(R1, env, resolve).run(cont.node.body)
+        ck.abstract_cases += 1
+        return out
+    bad1, bad2 = {}, []
+    n1 = n2 = 0
+    for rank, (lo, it, hi) in sorted(orderings.items()):
+        out = member([(lo, hi)], it)
+        n1 += 1
+        want = RULES[kind](lo, it, hi)
+        if out[0] != 'return' or bool(out[1]) != want:
+            bad1[rank] = f"code yields {out}, documented {'in' if want else 'out'}"
+    import itertools
+    for l1, h1, l2, h2, it in itertools.product(range(4), repeat=5):
+        if l1 > l2:
+            continue
+        n2 += 1
+        out = member([(l1, h1), (l2, h2)], it)
+        want = RULES[kind](l1, it, h1) or RULES[kind](l2, it, h2)
+        if (out[0] != 'return' or bool(out[1]) != want) and not bad2:
+            bad2.append(f"ranges [{l1},{h1}] and [{l2},{h2}], item {it}: code yields {out}, documented "
+                        f"{'in' if want else 'out'} ({kind} rule: {RULE_TEXT[kind]})")
+    return bad1, bad2, n1, n2
+
+
 def run(ck):
     ck.explanation = (
         "blocklib/timeinterval.py: the membership functions touch (low, item, high) only through "
@@ -76,6 +150,7 @@ def run(ck):
         ck.need(R1, len(orderings) == 13, "internal: ordering enumeration")
 
         # ------------------------------------------------------------------ R13.1
+        run_ok = {}
         for cname_, (kind, closed, gen, cseq, cstr) in CLASSES.items():
             ci = prog.cls(f"{TI}:{cname_}")
             try:
@@ -85,6 +160,34 @@ def run(ck):
             ck.ob(R2, f"{ci.qual} :: _RCLOSED_INTERVAL", flag is closed,
                   f"_RCLOSED_INTERVAL = {flag} (documented: {closed})", None,
                   f"{mod.path}:{ci.node.lineno}")
+            # layout-independent decision: `item in interval` itself is interpreted for the concrete
+            # class (methods and class-level tables resolved as Python would: MRO for self.<name>,
+            # the defining class body for names inside class-level expressions)
+            try:
+                bad1, bad2, n1, n2 = _contains_run(ck, R1, ci, kind, flag, orderings)
+            except AnalysisError as err_:
+                ck.note(f"R13.1 abstract run of {ci.qual}.__contains__ not applicable: {err_.reason}")
+                run_ok[cname_] = None
+            else:
+                run_ok[cname_] = not (bad1 or bad2)
+                cont_ = prog.resolve_method(ci, '__contains__')
+                for rank in sorted(orderings):
+                    desc = _describe(rank)
+                    ck.ob(R1, f"{ci.qual} :: item in interval :: ordering {desc}", rank not in bad1,
+                          f"{kind} rule ({RULE_TEXT[kind]}): single range, {desc}: "
+                          f"{'as documented' if rank not in bad1 else bad1[rank]}", cont_, cont_.node)
+                ck.ob(R1, f"{ci.qual} :: item in interval :: two ranges", not bad2,
+                      f"member iff one of the ranges contains the item, on all {n2} combinations of two "
+                      f"ranges (sorted by start, values 0..3) and an item" if not bad2 else bad2[0],
+                      cont_, cont_.node)
+        for cname_, (kind, closed, gen, cseq, cstr) in CLASSES.items():
+            if run_ok.get(cname_) is not None:
+                continue        # decided by the abstract run of __contains__
+            ci = prog.cls(f"{TI}:{cname_}")
+            try:
+                flag = fold(prog, mod, prog.class_value(ci, '_RCLOSED_INTERVAL'))
+            except (Unfoldable, AttributeError, TypeError):
+                flag = None
             fname = '_cmp_closed' if flag else '_cmp_open'
             fi = prog.resolve_method(ci, fname)
             ck.need(R1, fi is not None, f"{ci.qual} has no {fname}")
@@ -105,6 +208,14 @@ def run(ck):
 
     with ck.section('R13.1b'):
         # ------------------------------------------------------------------ R13.1b
+        if all(v is not None for v in run_ok.values()) and len(run_ok) == len(CLASSES):
+            # the dispatch is decided by the abstract runs above; the shape below is the fallback
+            for cname_ in CLASSES:
+                ci = prog.cls(f"{TI}:{cname_}")
+                ck.ob(R1b, f"{ci.qual} :: dispatch", run_ok[cname_],
+                      "membership = the documented rule of the class applied to every stored range (abstract "
+                      "run of __contains__)" if run_ok[cname_] else "see R13.1", None, f"{mod.path}:{ci.node.lineno}")
+            raise _SkipSection()
         cmpf = base.methods.get('_cmp')
         ck.need(R1b, cmpf is not None, "_Interval._cmp not found")
         rets = [n for n in own_nodes(cmpf.node) if isinstance(n, ast.Return)]
